@@ -22,13 +22,16 @@ def runC17 (op : String) (j : Json) : R Json := do
       match x.count with
       | some n => decide (n > 0) && decide (((eligibleSpec x c).length : Int) > n)
       | none => false
-    let implSpec ← if hasFld j "impl" then do
+    -- the real output is judged in the statement's own words: its `chunks_kept` must be the grid intervals at
+    -- SOME regular stride (keptOKAny), and the selection must satisfy the constraints relative to THOSE intervals
+    let implSpec ← if hasFld j "impl" && hasFld j "impl_kept" then do
         let out ← getNats j "impl"
-        pure (Json.bool (SpecOK x out))
+        let k ← getInts j "impl_kept"
+        pure (Json.bool (SpecOKIn (pairsOf k) x out))
       else pure Json.null
     let implKept ← if hasFld j "impl_kept" then do
         let k ← getInts j "impl_kept"
-        pure (Json.bool (keptOK x.bounds x.nKept k))
+        pure (Json.bool (keptOKAny x.bounds x.nKept k))
       else pure Json.null
     pure (Json.mkObj [("model", jNats m), ("random", Json.bool random),
                       ("model_spec", Json.bool (SpecOK x m)),
